@@ -269,7 +269,7 @@ def scenario(case, k):
         else:
             for i, f in enumerate(ef):
                 L.append("eforce %d %s %s %s" % (i + 1, hx(f[0]), hx(f[1]), hx(f[2])))
-        L += ["step", "fj"]
+        L += ["step", "fj"] + (["rot v"] if any(c.get("rotate") for c in case["comps"]) else [])
     L.append("echo END %d" % k)
     return L
 
@@ -308,6 +308,8 @@ def parse_impl(lines):
                     st["fj"][w[1]] = float.fromhex(w[2])
                 elif w[0] == "FOLD":
                     st["fold"][w[1]] = float.fromhex(w[2])
+                elif w[0] == "ROT" and w[1] == "v":
+                    st.setdefault("rot", {})[int(w[2])] = [float.fromhex(x) for x in w[4:14]]
                 elif w[0] == "ATOMF":
                     st["atomf"][int(w[1])] = [float.fromhex(x) for x in w[2:5]]
             except ValueError:
@@ -374,6 +376,8 @@ def comp_txt(comp):
     ids = "%d %s" % (len(comp["ids"]), " ".join(str(a - 1) for a in comp["ids"]))
     if k == "gyration":
         return "GY " + ids
+    if comp.get("rotate"):
+        return ("RMR %s %s" % (ids, vl(comp["refs"]))) if k == "rmsd" else ("EVR %s %s %s" % (ids, vl(comp["refs"]), vl(comp["evec"])))
     cen = "N"
     if comp.get("center"):
         cen = "C " + vl([cog(comp["gref"], range(1, len(comp["ids"]) + 1))])
@@ -393,7 +397,17 @@ def model_line(case, isteps):
         p.append(vl(s["pos"]))
         p.append(vl(step_eforce(case, isteps, t)))
         p.append(hx(bias_force(case, isteps[t]["cv"].get("v", float("nan")))))
+        for ci in rot_indices(case):
+            p.append(" ".join(hx(x) for x in isteps[t].get("rot", {}).get(ci, [1.0, 0, 0, 0, 1.0, 0, 0, 0, 1.0, 0.0])))
     return " ".join(p)
+
+
+def rot_indices(case):
+    """indices, in the implementation's component order (alphabetical by keyword, stable), of the rotated components
+    listed in configuration order"""
+    order = sorted(range(len(case["comps"])), key=lambda i: case["comps"][i]["kind"])
+    pos_in_impl = {ci: j for j, ci in enumerate(order)}
+    return [pos_in_impl[i] for i, c in enumerate(case["comps"]) if c.get("rotate")]
 
 
 def parse_model(line, n):
@@ -584,7 +598,8 @@ def gen_case(r, idx, typ=None, kinds=None):
 
 
 def rot_case(r, kind):
-    """rmsd / eigenvector in the optimally rotated frame (the default fit), temperature 0: inverse oracle only (no model)"""
+    """rmsd / eigenvector in the optimally rotated frame (the default fit): tied to the model (rotation matrix and
+    Jacobian derivative taken from the implementation); the inverse oracle applies at temperature 0"""
     c = None
     while c is None:
         c = gen_case(r, 0, "INV", [kind])
@@ -597,7 +612,9 @@ def rot_case(r, kind):
     cc.pop("gref", None)
     if kind == "eigenvector":
         cc["evec"] = [[V.dyadic(r, -2, 2, bits=3) for _ in range(3)] for _ in range(k)]
-    c.update({"type": "ROT", "T": 0.0, "invok": True, "hide": False})
+    T = r.choice([0.0, 0.0, 300.0])
+    c.update({"type": "ROT", "T": T, "invok": T == 0.0, "hide": False if T == 0.0 else c["hide"]})
+    c.pop("late", None)
     if c["bias"]["type"] == "harmonic":
         c["bias"] = {"type": "linear", "k": V.dyadic(r, 1, 4, bits=2)}
     z = [[0.0, 0.0, 0.0] for _ in range(n)]
@@ -809,7 +826,7 @@ class Runner:
 
 def process(run, runner, cases, sample=0):
     impl, crashed = runner.impl(cases)
-    mods = runner.models([c if c["type"] != "ROT" else dict(c, steps=[]) for c in cases], impl)
+    mods = runner.models(cases, impl)
     for k, c in enumerate(cases):
         kd = kinds_of(c)
         mode = "samestep" if c["same"] else "lagged"
@@ -834,8 +851,6 @@ def process(run, runner, cases, sample=0):
         run.count(json.dumps(c, sort_keys=True), bool(nontriv) and any(s["tf"].get("v") not in (None, 0.0) for s in isteps))
         for sig, text in oracle(c, isteps):
             run.violation(sig, text, rp)
-        if c["type"] == "ROT":
-            continue
         ml, ms = mods.get(k, (None, None))
         bad = compare(c, isteps, ms)
         if bad:
@@ -953,7 +968,7 @@ def check(run):
             while c is None or not c["comps"][0].get("onesite") or c["same"] != same:
                 c = gen_case(r, 0, "LOC", [kind])
             first.append(c)
-    for i in range(8 if quick else 400):          # rotated frames: search only
+    for i in range(24 if quick else 1200):          # rotated frames
         first.append(rot_case(r, "rmsd" if i % 2 == 0 else "eigenvector"))
     n = 420 if quick else 12000
     cases = list(first)
